@@ -50,6 +50,40 @@ def uses_param(t, k):
             return False
 
 
+_PREFIX = None
+
+
+def _prefix_bytes():
+    global _PREFIX
+    if _PREFIX is None:
+        import sym
+        from rules.layout import cv
+        vals = [cv(sym.FACTS, n) for n in ('ARRAY_PREFIX', 'OBJECT_PREFIX', 'SCALAR_PREFIX')]
+        _PREFIX = set(vals) if None not in vals else set()
+    return _PREFIX
+
+
+def _first_byte_of(t, k):
+    """the term is the first byte of parameter k: *(param.first() as Some).0, param[0], *param.get(0).."""
+    for _ in range(6):
+        if t[0] in ('deref', 'ref'):
+            t = t[1]
+        elif t[0] == 'cast':
+            t = t[2]
+        else:
+            break
+    if t[0] == 'field' and t[1][0] == 'downcast' and t[1][2] == 'Some' and t[1][1][0] == 'call':
+        c = t[1][1]
+        nm = canon(c[1])
+        if nm.endswith('::first') and c[2] and uses_param(c[2][0], k):
+            return True
+        if nm.endswith('::get') and len(c[2]) == 2 and uses_param(c[2][0], k) and c[2][1][0] == 'const' and c[2][1][1] == 0:
+            return True
+    if t[0] == 'index' and uses_param(t[1], k) and t[2][0] == 'const' and t[2][1] == 0:
+        return True
+    return False
+
+
 def true_edges_of_sniff(body, ex, k):
     """Edges (bb, target) taken when is_jsonb(param k) returned true."""
     edges = []
@@ -59,8 +93,23 @@ def true_edges_of_sniff(body, ex, k):
             a = ex.operand(t['args'][0])
             if uses_param(a, k):
                 sniff_dests[t['dest']['local']] = bb
+    # an inline sniff: a switch on the first byte of the parameter (`match value.first() { Some(&(ARRAY_PREFIX | OBJECT_PREFIX |
+    # SCALAR_PREFIX)) => .. }`, `match value[0] { .. }`) whose arm values are JSONB prefix bytes establishes the same fact on those arms
+    prefixes = _prefix_bytes()
+    n_inline = 0
+    if prefixes:
+        for b in body.blocks:
+            t = b['term']
+            if t['k'] != 'switch' or not t['targets']:
+                continue
+            d = ex.operand(t['discr'])
+            if _first_byte_of(d, k):
+                hit = [x for v, x in t['targets'] if v in prefixes]
+                if hit and all(v in prefixes for v, x in t['targets']):
+                    edges.extend((b['id'], x) for x in hit)
+                    n_inline += 1
     if not sniff_dests:
-        return edges, 0
+        return edges, n_inline
     for b in body.blocks:
         t = b['term']
         if t['k'] != 'switch':
@@ -95,7 +144,7 @@ def true_edges_of_sniff(body, ex, k):
             true_t, false_t = false_t, true_t
         if true_t is not None:
             edges.append((b['id'], true_t))
-    return edges, len(sniff_dests)
+    return edges, len(sniff_dests) + n_inline
 
 
 def reachable_without(body, removed):
